@@ -109,27 +109,29 @@ fn sort_printed_planes(args: &Args, planes_vector: &mut Vec<(&u32, &Plane)>) {
                     });
                 }
                 'd' => {
-                    planes_vector.sort_by_cached_key(|&(_, p)| {
-                        p.distance_from_observer.unwrap_or(0.0) as i32
+                    planes_vector.sort_by(|&(_, a), &(_, b)| {
+                        (a.distance_from_observer.unwrap_or(0.0))
+                            .total_cmp(&b.distance_from_observer.unwrap_or(0.0))
                     });
                 }
                 'D' => {
-                    planes_vector.sort_by_cached_key(|&(_, p)| {
-                        p.distance_from_observer.unwrap_or(0.0) as i32
+                    planes_vector.sort_by(|&(_, a), &(_, b)| {
+                        (a.distance_from_observer.unwrap_or(0.0))
+                            .total_cmp(&b.distance_from_observer.unwrap_or(0.0))
                     });
                     planes_vector.reverse();
                 }
                 'N' => {
-                    planes_vector.sort_by_cached_key(|&(_, p)| p.lat as i32);
+                    planes_vector.sort_by(|&(_, a), &(_, b)| a.lat.total_cmp(&b.lat));
                 }
                 'S' => {
-                    planes_vector.sort_by_cached_key(|&(_, p)| -(p.lat as i32));
+                    planes_vector.sort_by(|&(_, a), &(_, b)| b.lat.total_cmp(&a.lat));
                 }
                 'W' => {
-                    planes_vector.sort_by_cached_key(|&(_, p)| p.lon as i32);
+                    planes_vector.sort_by(|&(_, a), &(_, b)| a.lon.total_cmp(&b.lon));
                 }
                 'E' => {
-                    planes_vector.sort_by_cached_key(|&(_, p)| -(p.lon as i32));
+                    planes_vector.sort_by(|&(_, a), &(_, b)| b.lon.total_cmp(&a.lon));
                 }
                 's' => {
                     planes_vector.sort_by_cached_key(|&(_, p)| p.squawk);
